@@ -5,6 +5,10 @@ V = os.path.dirname(os.path.dirname(os.path.abspath(__file__)))
 props = [json.loads(l) for l in open(os.path.join(V, "properties.jsonl"))]
 
 CLAIMED = {
+ "C09": dict(
+   text="The parser model (a PEG interpreter mirroring the nom combinators) is instantiated with the operator ladder REGENERATED from milu/src/parser.rs on every run and checked inside Rocq against the documented table regenerated from milu/readme.md: every documented operator and spelling, every ordered pair (precedence, associativity), every ordered triple over the precedence levels, unary/postfix/conditional/scope interactions, tag-shadowing discipline of ordered choice, and blank/comment fillers at every token boundary of sample forms - each a complete enumeration evaluated by vm_compute. Tie: the extracted parser model vs milu::parser::parse on exhaustive pairs/triples, random trees to depth 5 in four spellings, and a lexical edge list, with an independently written expected-tree oracle.",
+   note="Partial: the unbounded statement parse(print e) = e for all trees and all fillers is not proved (the finite families above are); template strings are outside the model; nom is modelled. Trusted: Coq kernel, vm_compute, translator, extraction, glue.",
+   tech="Rocq finite-domain theorems over a translator-instantiated parser model + differential correspondence"),
  "C11": dict(
    text="Rocq theorems over a Gallina model of src/common/fragment.rs: sender cover, refinement of reassembly to a seen-set spec for every arrival order with duplicates, exactly-once outside the known duplicate-cover class, id independence for every interleaving, garbage and inconsistent fragments yield nothing, timer discards, no panic in any reachable state. The model is tied to the code by a differential correspondence check of the extracted model against the hook-built implementation plus an implementation-only oracle.",
    note="Trusted: Coq kernel, ExtrOcamlBasic extraction, driver/model_run glue and generators; bytes/HashMap/VecDeque/Instant modelled not verified. Known finding C11-dup-cover (second complete copy re-delivers).",
